@@ -3,6 +3,7 @@ audit, violation replay + minimisation, known findings, evidence files."""
 
 import concurrent.futures as cf
 import faulthandler
+import gc
 import hashlib
 import importlib
 import json
@@ -98,6 +99,9 @@ def run_one(pid, seed, tier, want_record=False):
     finally:
         _watchdog_armed[0] = False
         faulthandler.cancel_dump_traceback_later()
+        # whatever the run left unreachable is finalised now, with the simulated OS gone: a
+        # finalizer (FcntlLock.__del__) must never run inside the *next* run's simulation
+        gc.collect()
     res["seed"] = seed
     res["wall"] = time.time() - t0
     if record is not None and res.get("record_patch"):
@@ -118,6 +122,7 @@ def run_record(pid, record):
     finally:
         _watchdog_armed[0] = False
         faulthandler.cancel_dump_traceback_later()
+        gc.collect()
     return res
 
 
